@@ -57,7 +57,7 @@ class Impl:
 def build(config):
     leaf_kind, wrappers, ff_mode = config
     impl = Impl()
-    ff_inner = ff_mode == "inner"
+    ff_inner = ff_mode in ("inner", "inner1")
     if leaf_kind == "etsd":
         impl.top = ExtendedToStreamDecorator(StreamResult())
         if ff_mode != "off":
@@ -74,7 +74,8 @@ def build(config):
         if w == "multi1":
             obj = MultiTestResult(obj)
         elif w == "multi2":
-            other = rec.TT(failfast=ff_inner)
+            # "inner1": only the first underlying result was configured with failfast
+            other = rec.TT(failfast=ff_inner and ff_mode != "inner1")
             impl.leaves.append(other)
             obj = MultiTestResult(obj, other)
         elif w == "tfr":
@@ -101,7 +102,7 @@ def configs(tier):
             for ws in itertools.product(WRAPPERS, repeat=d):
                 if d >= 2 and leaf == "text":
                     continue
-                for ff in ("off", "inner", "outer"):
+                for ff in ("off", "inner", "outer") + (("inner1",) if "multi2" in ws else ()):
                     if ff == "outer" and ws and ws[-1] not in FORWARDS_FAILFAST:
                         # only MultiTestResult / ExtendedToOriginalDecorator implement failfast
                         # themselves (they stop on a bad outcome whatever sits below them)
@@ -123,6 +124,8 @@ class Model:
         self.total_tests = 0
         self.in_run = False
         self.started_once = False
+        self.hetero = False
+        self.stop_called = False
         self.counts = {o: 0 for o in OUTCOMES}
 
     def key(self):
@@ -135,7 +138,9 @@ class System:
         self.max_tests = max_tests
 
     def fresh(self):
-        return build(self.config), Model(self.config[2] != "off")
+        m = Model(self.config[2] != "off")
+        m.hetero = self.config[2] == "inner1"
+        return build(self.config), m
 
     def ops(self, m):
         out = []
@@ -167,6 +172,7 @@ class System:
                 top.startTestRun()
                 m.bad = False
                 m.stopped = False
+                m.stop_called = False
                 m.tests = 0
                 m.in_run = True
                 m.started_once = True
@@ -186,6 +192,7 @@ class System:
             elif name == "stop":
                 top.stop()
                 m.stopped = True
+                m.stop_called = True
             else:
                 if name == "addSuccess":
                     top.addSuccess(t)
@@ -221,15 +228,20 @@ class System:
                 ss = bool(o.shouldStop)
             except Exception as e:
                 ss = "raised %s" % type(e).__name__
-            if ss != m.stopped:
+            want_ss = m.stopped
+            if m.hetero and label.startswith("underlying result") and label != "underlying result 0" and m.bad and not m.stop_called:
+                # a result that was not configured with failfast itself may or may not be stopped
+                # along with its failfast siblings; stop() must reach it in any case
+                want_ss = ss
+            if ss != want_ss:
                 clause = "shouldStop"
-                if m.F and m.bad and not ss:
+                if m.F and m.bad and not ss and not m.stop_called:
                     clause = "failfast-not-effective"
-                elif name == "stop" and not ss:
+                elif m.stop_called and not ss:
                     clause = "stop-not-propagated"
                 elif ss and not m.stopped:
                     clause = "shouldStop-early"
-                problems.append((clause, "%s: shouldStop == %r after %s, model says %r (failfast=%r, bad=%r)" % (label, ss, name, m.stopped, m.F, m.bad)))
+                problems.append((clause, "%s: shouldStop == %r after %s, model says %r (failfast=%r, bad=%r)" % (label, ss, name, want_ss, m.F, m.bad)))
         if name == "stopTestRun" and impl.text_stream is not None:
             written = impl.text_stream.getvalue()[len(text_before):]
             problems.extend(check_summary(written, m))
